@@ -25,6 +25,7 @@ inductive CaseState where
 
 structure Drv where
   P : Nat := 255
+  f32 : Bool := false
   cs : CaseState := .idle
   caseId : String := ""
   comp : String := ""
@@ -111,7 +112,8 @@ def stepMethod (d : Drv) (line : String) : Drv × Option String :=
       if resStr r != rust then mismatch d s!"constructor: rust={rust} model={resStr r}" line "constructor"
       else match r with
         | .ok st =>
-          let ctx : Ctx := bump { P := d.P, n := st.winLen } name inp
+          let ctx0 : Ctx := if d.f32 then { P := d.P, n := st.winLen, eps := pow2 (-23), C := 64 } else { P := d.P, n := st.winLen }
+          let ctx : Ctx := bump ctx0 name inp
           let (bad, _) := cmpAll (cmpLeaf ctx (ctx.allow (stateScale ctx st))) (mLeaves st) leaves "state after new"
           let d := { d with ops := d.ops + 1, cs := .method name params st ctx leaves false (specInit name (inp.map (·.q))) }
           (match bad with
@@ -174,6 +176,7 @@ def step (d : Drv) (line : String) : Drv × Option String :=
   match op with
   | [] => (d, none)
   | ["P", p] => ({ d with P := p.toNat! }, none)
+  | ["V", b] => ({ d with f32 := b == "32" }, none)
   | "C" :: id :: comp :: _params =>
     let cs := match comp, _params with
       | "window", _ => CaseState.window Window.empty
